@@ -100,7 +100,7 @@ class Probe(BaseComponent):
     @handler('httperror', priority=100)
     def _he(self, event, req, res, code=None, **kw):
         self.keep.append(req)
-        self.log.append(['httperror', id(req), int(event.code)])
+        self.log.append(['httperror', id(req), int(event.code), req.method])
 
     @handler('write', priority=100)
     def _w(self, sock, data):
@@ -119,12 +119,19 @@ class Probe(BaseComponent):
         self.log.append(['pong'])
 
 
+ROUNDS = 60         # flush rounds granted to one operation (a read settles in < 10)
+QUEUE_MAX = 300     # ... and queue length: an exponential event storm is cut off early
+
+
 def drain(m):
-    for _ in range(400):
-        if not len(m):
+    for _ in range(ROUNDS):
+        n = len(m)
+        if not n:
             return True
+        if n > QUEUE_MAX:
+            return False
         m.flush()
-    return False
+    return not len(m)
 
 
 # ----------------------------------------------------------------------------- tracing (driver side only)
@@ -192,12 +199,12 @@ class WrappersShim:
             p = Trace.parser
             te = r.headers.get('Transfer-Encoding')
             Trace.req = r
-            Trace.calls.append([tag, [list(r.protocol), bool(r.headers.get('Host')),
+            Trace.calls.append([tag, [list(r.protocol) + [r.method == 'HEAD'], bool(r.headers.get('Host')),
                                       te is not None and te.lower() == 'chunked',
                                       bool(p.should_keep_alive()) if p is not None else False,
                                       te is not None and te != 'chunked' and te.lower() == 'chunked']])
         elif tag == 'errreq':
-            Trace.calls.append([tag, list(r.protocol)])
+            Trace.calls.append([tag, list(r.protocol) + [r.method == 'HEAD']])
         else:
             Trace.calls.append([tag, True])
         return r
@@ -334,7 +341,7 @@ def run_case(case):
                 elif rec[0] == 'httperror':
                     if rec[1] not in dispatched:
                         effs.append([1, rec[2]])
-                        methods.append(None)
+                        methods.append(rec[3])
                 elif rec[0] == 'write':
                     if rec[1] != n:
                         problems.append('write to another socket (%d) while serving %d' % (rec[1], n))
@@ -351,8 +358,8 @@ def run_case(case):
             resps = decode_responses(wbytes, methods)
             slots = [i for i, e in enumerate(effs) if e == ['W']]
             if len(slots) == len(resps):
-                for i, r in zip(slots, resps):
-                    effs[i] = [2, r[0], r[1], r[2], r[3]]
+                for k, (i, r) in enumerate(zip(slots, resps)):
+                    effs[i] = [2, r[0], r[1], r[2], r[3], k < len(methods) and methods[k] == 'HEAD']
             else:
                 problems.append('%d runs of writes but %d responses decoded' % (len(slots), len(resps)))
                 for i in slots:
@@ -375,15 +382,19 @@ def run_case(case):
             steps.append({'op': [kind, n] + ([o[2]] if kind == 'r' else []) + (['auto'] if kind == 'd' and len(o) > 2 else []),
                           'tag': o[3] if kind == 'r' and len(o) > 3 else '',
                           'calls': Trace.calls, 'path': pa, 'app': app,
-                          'effs': effs, 'state': [s in bufs, s in clis], 'problems': problems,
+                          'effs': effs[:40], 'n_effs': len(effs), 'state': [s in bufs, s in clis], 'problems': problems,
                           'wrote': len(wbytes)})
+            if stuck:
+                break                                   # the loop does not come to rest: nothing more to learn
             if [3] in effs and kind == 'r':
                 todo.insert(0, ['d', n, 'auto'])       # the server disconnects a socket it closed
         n0 = len(probe.log)
-        m.fire(ping(), 'web')
-        drain(m)
-        pong = ['pong'] in probe.log[n0:]
-        extra = [r[0] for r in probe.log[n0:] if r[0] != 'pong']
+        pong = False
+        if not stuck:
+            m.fire(ping(), 'web')
+            drain(m)
+            pong = ['pong'] in probe.log[n0:]
+        extra = [r[0] for r in probe.log[n0:] if r[0] != 'pong'][:10]
         final = [len(getattr(httpc, '_buffers', {})), len(getattr(httpc, '_clients', {}))]
         open_socks = sorted(n for n, s in socks.items() if s in getattr(httpc, '_buffers', {}) or s in getattr(httpc, '_clients', {}))
     finally:
@@ -430,9 +441,11 @@ def run_burst(case):
             nresp[str(n)] = [r[:4] for r in rs]
             problems += ['connection %d: %s' % (n, r[4]) for r in rs if r[4]]
         n0 = len(probe.log)
-        m.fire(ping(), 'web')
-        drain(m)
-        pong = ['pong'] in probe.log[n0:]
+        pong = False
+        if not stuck:
+            m.fire(ping(), 'web')
+            drain(m)
+            pong = ['pong'] in probe.log[n0:]
         gone = [o[1] for o in case['ops'] if o[0] == 'd']
         retained = sorted(n for n, s in socks.items() if n in gone and
                           (s in getattr(httpc, '_buffers', {}) or s in getattr(httpc, '_clients', {})))
@@ -464,6 +477,7 @@ def bases(rng):
     return [
         (req_bytes('GET', rng.choice(['/', '/echo', '/?a=1&b=2', '/nothere']), headers=host + conn), 'get'),
         (req_bytes('GET', '/', 'HTTP/1.0', headers=conn), 'get10'),
+        (req_bytes('HEAD', rng.choice(['/', '/echo', '/nothere']), headers=host + conn), 'head'),
         (req_bytes('POST', '/echo', headers=host + [('Content-Length', str(len(body)))] + conn, body=body), 'post-cl'),
         (req_bytes('POST', '/echo', headers=host + [('Transfer-Encoding', 'chunked')] + conn,
                    body=chunked([body[:len(body) // 2 + 1], body[len(body) // 2 + 1:] or b'z'])), 'post-chunked'),
@@ -474,14 +488,37 @@ def bases(rng):
 TLS_HELLO = bytes([0x16, 0x03, 0x01, 0x00, 0x2f, 0x01, 0x00, 0x00, 0x2b, 0x03, 0x03]) + bytes(range(32)) + b'\x00\x00\x02\x13\x01\x01\x00'
 SSL2_HELLO = bytes([0x80, 0x2e, 0x01, 0x00, 0x02, 0x00, 0x15, 0x00, 0x00, 0x00, 0x10]) + bytes(range(35))
 
-MUTATIONS = ['line-parts', 'line-version', 'line-major', 'line-fragment', 'hdr-nocolon', 'hdr-name', 'hdr-oversized',
+MUTATIONS = ['hdr-nonlatin1', 'hdr-nonlatin1', 'line-parts', 'line-version', 'line-major', 'line-fragment', 'hdr-nocolon', 'hdr-name', 'hdr-oversized',
              'cl-alpha', 'cl-negative', 'cl-conflict', 'chunk-size', 'escape', 'escape-hdr', 'nul', 'tls', 'ssl2',
              'no-host', 'host-port', 'byteflip', 'insert', 'empty-read', 'dotdot', 'url-bracket']
 
 
+METHODS = ['GET', 'GET', 'HEAD', 'HEAD', 'HEAD', 'POST', 'PUT', 'DELETE', 'OPTIONS', 'PATCH']
+NONLATIN = ['\\u1234', '"\\u1234"', '\\u20ac', '"\\U0001f600"', '"\\ud800"', '\xe1\x88\xb4', '"\xe1\x88\xb4"', '\xe9', '"\xe9"', '\xff\xfe',
+            '"a\\u0100b"', '\\N{SNOWMAN}', '"\\N{SNOWMAN}"']
+
+
 def mutate(rng, kind):
-    """-> (bytes, expectation, note).  expectation 'malformed': the message must not be dispatched nor answered < 400"""
+    """-> (bytes, expectation).  expectation 'malformed': the message must not be dispatched nor answered < 400"""
+    data, exp = mutate_get(rng, kind)
+    if data.startswith(b'GET ') and rng.random() < 0.6:        # the same mutation on a request with another method
+        data = rng.choice(METHODS).encode() + data[3:]
+    elif data.startswith(b'POST ') and rng.random() < 0.3:
+        data = rng.choice(['PUT', 'PATCH', 'HEAD']).encode() + data[4:]
+    return data, exp
+
+
+def mutate_get(rng, kind):
     host = [('Host', 'localhost:8000')]
+    if kind == 'hdr-nonlatin1':
+        # header values outside ASCII / latin-1: raw UTF-8 or high bytes, or the backslash escapes that the parser's
+        # unicode_escape decoding turns into code points > 255; in a Cookie they come back as Set-Cookie
+        v = rng.choice(NONLATIN)
+        name = rng.choice(['Cookie', 'Cookie', 'Cookie', 'X-Any', 'Accept', 'Referer', 'Host', 'Connection', 'Content-Type'])
+        if name == 'Cookie':
+            v = rng.choice(['a=%s', 'a=%s; b=c', 'sid=1; a=%s', '%s=1']) % v
+        hs = [(name, v)] if name == 'Host' else host + [(name, v)]
+        return req_bytes(target=rng.choice(['/', '/echo', '/nothere']), headers=hs), 'any'
     if kind == 'line-parts':
         return rng.choice([b'GARBAGE\r\n\r\n', b'GET /\r\nHost: a\r\n\r\n', b'\r\n\r\n', b'GET\r\n\r\n']), 'malformed'
     if kind == 'line-version':
@@ -566,7 +603,8 @@ class C14(Prop):
     imports = ['Model.HttpRobust', 'Model.HttpRobustObs']
     quick_n = 560
     thorough_n = 9000
-    rule = ('well-formed requests (GET, HTTP/1.0, POST with Content-Length, POST chunked, long headers) mutated by one of '
+    rule = ('well-formed requests (GET, HTTP/1.0, HEAD, POST with Content-Length, POST chunked, long headers; methods GET/HEAD/POST/PUT/'
+            'DELETE/OPTIONS/PATCH in every class; header values outside latin-1 incl. Cookie) mutated by one of '
             + str(len(MUTATIONS)) + ' classes (request-line parts/version/major/fragment, header without colon, bad header name, '
             'oversized header, Content-Length alphabetic/negative/conflicting, bad chunk size, invalid unicode escapes in the '
             'request line and in a header, NUL, TLS / SSLv2 client hello, missing Host, bad Host port, byte flips, insertions, '
@@ -592,7 +630,7 @@ class C14(Prop):
         cases = []
         # truncation at every offset of base requests, then disconnect
         bs = bases(rng)
-        for data, kind in ([bs[0], bs[2]] if tier == 'quick' else bs + bases(rng)):
+        for data, kind in ([bs[0], bs[3]] if tier == 'quick' else bs + bases(rng)):
             tail = chunked_tail_start(data) if kind == 'post-chunked' else len(data)
             for off in range(0, len(data) + 1):
                 exp = 'incomplete' if off < min(tail, len(data)) else 'any'
@@ -603,7 +641,7 @@ class C14(Prop):
             data, exp = mutate(rng, kind)
             ops = []
             if rng.random() < 0.2:                       # a well-formed keep-alive request first
-                ops.append(['r', 0, l1(req_bytes(headers=[('Host', 'localhost:8000')])), 'pre'])
+                ops.append(['r', 0, l1(req_bytes(rng.choice(['GET', 'HEAD', 'OPTIONS']), headers=[('Host', 'localhost:8000')])), 'pre'])
             for c in cut(rng, data):
                 ops.append(['r', 0, l1(c), 'mut'])
             if rng.random() < 0.35:                      # a second connection interleaved
@@ -695,8 +733,8 @@ class C14(Prop):
             return '%d%%N' % max(0, int(x))
         ssl = R('ssl', b)
         ex = R('exec', lambda v: '(mkF %s %s %s)' % (b(v[0]), 'None' if not v[1] else '(Some %s)' % ['BadFirstLine', 'InvalidHeader', 'InvalidChunk'][v[1][0]], b(v[2])))
-        er = R('errreq', lambda v: '(%s, %s)' % (N(v[0]), N(v[1])))
-        rq = R('req', lambda v: '(mkR %s %s %s %s %s)' % (N(v[0][0]), N(v[0][1]), b(v[1]), b(v[2]), b(v[3])))
+        er = R('errreq', lambda v: '((%s, %s), %s)' % (N(v[0]), N(v[1]), b(v[2])))
+        rq = R('req', lambda v: '(mkR %s %s %s %s %s %s)' % (N(v[0][0]), N(v[0][1]), b(v[0][2]), b(v[1]), b(v[2]), b(v[3])))
         cl = R('int', lambda v: '(%d)%%Z' % v)
         # the path guard is not a traceable call site: its answer is the guard replayed on the built request; an exception of the
         # read handler after int() was consulted and before anything was fired is attributed to it
@@ -742,7 +780,13 @@ class C14(Prop):
         if isinstance(obs, dict) and '__crash__' in obs:
             return None
         if obs['stuck']:
-            return 'the event queue does not settle'
+            last = obs['steps'][-1] if obs.get('steps') else None
+            if last is not None:
+                return ('the event queue does not settle within %d rounds after operation %d (%s on connection %d): %d effects so far, '
+                        'among them %d responses / runs of writes and %d closes for this one operation' % (
+                            ROUNDS, len(obs['steps']) - 1, 'read' if last['op'][0] == 'r' else 'disconnect', last['op'][1], last['n_effs'],
+                            len([e for e in last['effs'] if e[0] in (2, 7)]), len([e for e in last['effs'] if e[0] == 3])))
+            return 'the event queue does not settle within %d rounds' % ROUNDS
         if obs.get('burst'):
             if not obs['pong']:
                 return 'the event loop no longer dispatches events after the case'
